@@ -7,7 +7,7 @@
    and absence of the local sites at once. *)
 From RV Require Import Base.Prelude Base.IdSet M.Util M.Proto M.MemStorage M.Inflights
   M.InflightsProofs M.Progress M.RaftLog M.Quorum M.ConfChange M.Msg M.Raft M.RawNode
-  M.RaftProofs M.RaftProofsC15 M.RaftProofsC20 M.RaftProofsC20Iff.
+  M.RaftProofs M.RaftProofsC20 M.RaftProofsC20Iff.
 From RecordUpdate Require Import RecordSet.
 Import RecordSetNotations.
 
@@ -141,7 +141,30 @@ Proof.
 Qed.
 
 (* ================================================================== *)
-(* progress maps *)
+(* progress maps (no sortedness is needed) *)
+Lemma pget_pput_same m id p : pget (pput m id p) id = Some p.
+Proof.
+  induction m as [|[k q] t IH]; cbn [pput pget].
+  - rewrite N.eqb_refl. reflexivity.
+  - destruct (id <? k) eqn:E1; cbn [pget].
+    + rewrite N.eqb_refl. reflexivity.
+    + destruct (id =? k) eqn:E2; cbn [pget].
+      * rewrite N.eqb_refl. reflexivity.
+      * rewrite N.eqb_sym, E2. exact IH.
+Qed.
+
+Lemma pget_pput_other m id p id' : id' <> id -> pget (pput m id p) id' = pget m id'.
+Proof.
+  intros Hne. induction m as [|[k q] t IH]; cbn [pput pget].
+  - destruct (id =? id') eqn:E; [apply N.eqb_eq in E; congruence|reflexivity].
+  - destruct (id <? k) eqn:E1; cbn [pget].
+    + destruct (id =? id') eqn:E; [apply N.eqb_eq in E; congruence|reflexivity].
+    + destruct (id =? k) eqn:E2; cbn [pget].
+      * apply N.eqb_eq in E2. subst k.
+        destruct (id =? id') eqn:E; [apply N.eqb_eq in E; congruence|reflexivity].
+      * destruct (k =? id'); [reflexivity|exact IH].
+Qed.
+
 Lemma PrsOk_pput m id p : PrsOk m -> pr_ok p -> PrsOk (pput m id p).
 Proof.
   intros H Hp id' p' G. destruct (N.eq_dec id' id) as [->|Hne].
